@@ -35,7 +35,8 @@ MANIFEST = {
              "(construct_feasible), scaling the energies by s scales the vertices by s, facet lists are exactly the incident simplices, ordering is a "
              "permutation, fan triangles use only facet indices, and the directed boundary of a fan is its polygon (discrete Stokes). Not proved: "
              "Qhull's hull property, convexity/ordering of the polygons (hence exact edge pairing), equality of volume with the half-space intersection — "
-             "all checked by the oracle against a brute-force triple-plane intersection."),
+             "all checked by the oracle against a brute-force triple-plane intersection."
+             " With the relative threshold the degenerate-vertex pruning commutes with scaling (pruneIdx_scale). Two near-degenerate inputs are recorded findings (per-facet merging of nearly coincident vertices)."),
     "note": "Trusted: Lean kernel + Mathlib; Qhull simplices as input with HullProperty as hypothesis; hand model tied by correspondence.",
     "technique": "Lean 4 proof (field algebra over ℚ, list combinatorics) + correspondence on captured hull simplices + brute-force half-space oracle",
 }
